@@ -1,4 +1,5 @@
 import Q1t.Proofs.CQasmEquivText
+import Q1t.Proofs.CQasmEquivMeasureAll
 import Q1t.Proofs.CQasmComplex
 /-! C12: non-vacuity of `cq_equiv_partial` over the complex numbers. -/
 noncomputable section
@@ -53,5 +54,37 @@ theorem equiv_example_term : ∃ steps : List (XOp ℝ × List (DStmt ℂ) × Si
   · exact f1
   · exact f2
   · exact FaithfulOpT.base _ _ _ (FaithfulOpPh.exact _ _ _ (FaithfulOp.measure 0 .X (by decide)))
+
+theorem termSample_condOk : condTermOK termSample = true := by decide +kernel
+
+/-- `H 0; measure 0; if b[0] = 1 then (the loop / bundle / composite of `termSample`) on qubits [2, 1]; if b[0] = 0
+then V 1 (phase); measure_all` on three qubits: the program's branch list is a permutation of a list related branch by
+branch to the circuit's -/
+theorem equiv_example_cond_measureAll : ∃ steps : List (XOp ℝ × List (DStmt ℂ) × Sim.COp ℝ),
+    steps.map (·.1) = [.gate (.lib "H" []) [0], .measure 0 0 .Z, .cond [0] 1 termSample [2, 1],
+      .cond [0] 0 (.lib "V" []) [1], .measureAll [0, 1, 2] .Z] ∧
+    ∃ r2, Spec.branches 3 (fun _ => true) (steps.map (·.2.2)) (CQ1.initial 3) = some r2 ∧
+      PermRel (PhRel ℝ 3 (fun _ => true)) (dSeq 3 (fun _ => true) (steps.flatMap (·.2.1)) (CQ1.initial 3)) r2 := by
+  obtain ⟨D1, c1, f1⟩ := faithful_term (α := ℂ) lawful lawfulHalf lawfulNegHalf lawfulQuarter 3 (fun _ => true)
+    (.lib "H" []) (by decide +kernel) [0] rfl (by decide) (fun _ _ _ _ => rfl)
+  obtain ⟨D3, c3, f3⟩ := faithful_cond (α := ℂ) lawful lawfulHalf lawfulNegHalf lawfulQuarter 3 (fun _ => true)
+    termSample termSample_condOk [2, 1] rfl (by decide) (fun _ _ _ _ => rfl) [0] 1 (by simp) (by simp) (by simp)
+    (by decide)
+  obtain ⟨D4, c4, f4⟩ := faithful_cond (α := ℂ) lawful lawfulHalf lawfulNegHalf lawfulQuarter 3 (fun _ => true)
+    (.lib "V" []) (by decide +kernel) [1] rfl (by decide) (fun _ _ _ _ => rfl) [0] 0 (by simp) (by simp) (by simp)
+    (by decide)
+  refine ⟨[(_, D1, c1),
+    (.measure 0 0 .Z, [.measure 0 (basisPre (P := ℝ) .Z) (basisPost (P := ℝ) .Z)], .measure 0 0 .Z),
+    (_, D3, c3), (_, D4, c4), (.measureAll (List.range 3) .Z, measureAllStmts 3, .measureAll (List.range 3) .Z)],
+    rfl, ?_⟩
+  apply circuit_equiv_measureAll lawful lawfulHalf lawfulNegHalf lawfulQuarter 3 (by decide) _ (fun _ => rfl)
+  intro s hs
+  simp only [List.mem_cons, List.mem_nil_iff, or_false] at hs
+  rcases hs with rfl | rfl | rfl | rfl | rfl
+  · exact .base _ _ _ (.base _ _ _ f1)
+  · exact .base _ _ _ (.base _ _ _ (.base _ _ _ (.exact _ _ _ (FaithfulOp.measure 0 .Z (by decide)))))
+  · exact .base _ _ _ f3
+  · exact .base _ _ _ f4
+  · exact .measureAll
 
 end Q1t.AmpComplex
